@@ -817,6 +817,39 @@ def build_real(case):
     return run_pipeline(make_filters(case["stages"]), base_rows(case))
 
 
+def arff_token(cell, qs):
+    """the text of one dense ARFF cell: a value holding a double quote is written in single quotes, one holding a single quote in double
+    quotes, one holding a blank or a comma in the table's default quote (base["qs"]: "s" = single, else double); everything else bare.
+    Deterministic in (cell, qs), so shrinking rows keeps the text of the others."""
+    if not isinstance(cell, str) or cell in ("?", ""):
+        return cell
+    if '"' in cell:
+        return "'" + cell + "'"
+    if "'" in cell:
+        return '"' + cell + '"'
+    if " " in cell or "," in cell:
+        q = "'" if qs == "s" else '"'
+        return q + cell + q
+    return cell
+
+
+def touch_rows(table, ri, mode):
+    """read the OTHER rows of the table completely before the observed one ("fwd": ascending, "rev": descending row order).
+    Rows of one read share objects (ArffReader: one line reader for all rows; filters: one closure for all rows); what a row
+    answers must not depend on which of its siblings were loaded before it."""
+    if mode not in ("fwd", "rev"):
+        return
+    idx = [j for j in range(len(table)) if j != ri]
+    if mode == "rev":
+        idx.reverse()
+    for j in idx:
+        try:
+            r = table[j]
+            list(r.items()) if hasattr(r, "items") else list(r)
+        except Exception:
+            pass
+
+
 def arff_lines(case):
     lines = ["@relation t"]
     for c in case["base"]["cols"]:
@@ -829,7 +862,7 @@ def arff_lines(case):
     lines.append("@data")
     for raw in case["rows"]:
         if case["kind"] == "dense":
-            lines.append(",".join(raw))
+            lines.append(",".join(arff_token(c, case["base"].get("qs")) for c in raw))
         else:
             lines.append("{" + ", ".join("%d %s" % (k, v) for k, v in raw) + "}")
     return lines
@@ -1022,7 +1055,7 @@ def real_access(r, acc, e):
         return {"e": type(ex).__name__}
 
 
-TABLE_KEYS = ("kind", "base", "rows", "ri", "acc", "perm", "nonuniform", "nested")
+TABLE_KEYS = ("kind", "base", "rows", "ri", "acc", "perm", "nonuniform", "nested", "touch")
 
 
 def tables_of(case):
@@ -1080,6 +1113,9 @@ def run_real(case, f1=None, f2=None):
     e = et[ri] if (et is not None and ri < len(et)) else None
     r1, r2 = t1[ri], t2[ri]
     acc = case["acc"]
+    touch = case.get("touch") or {}
+    touch_rows(t1, ri, touch.get("first"))
+    touch_rows(t2, ri, touch.get("second"))
     out["first"] = [real_access(r1, a, e) for a in acc]
     second = [None] * len(acc)
     for j in case.get("perm") or []:
@@ -1289,6 +1325,22 @@ def enccat_on_lazy(case):
     return False
 
 
+CLASS_COMPARED = ("pos", "name", "iter", "copy", "items", "keys", "len", "headers", "label", "tipe")      # accesses whose exception class is compared with the model
+
+
+ARFF_QUOTE_SIG = "dense:arff-both-quote-kinds-after-unquoted-row"
+
+
+def arff_quote_area(case):
+    """recorded C13-F13: ArffLineReader._dense_simple tests its second quote kind against a stale local copy of the quote character, so a data
+    line holding BOTH quote kinds that is loaded after a line without any quote is parsed with the single quote as csv quotechar.  Shape: a dense
+    ARFF table with a line holding both quote kinds and a line holding none (which one is loaded first depends on the access order)."""
+    if case["kind"] != "dense" or case["base"]["wrap"] != "arff":
+        return False
+    lines = [",".join(arff_token(c, case["base"].get("qs")) for c in r) for r in case["rows"]]
+    return any('"' in l and "'" in l for l in lines) and any('"' not in l and "'" not in l for l in lines)
+
+
 def areas(case, acc):
     """the recorded defect classes whose mechanism this access (acc=None: the table as a whole) goes through,
     decided from the shape of the case only; each entry is (signature, symptom predicate over (how, err, exp))"""
@@ -1297,6 +1349,8 @@ def areas(case, acc):
     ops = [st["op"] for st in stages]
     lp = label_pos(stages)
     out = []
+    if arff_quote_area(case):
+        out.append((ARFF_QUOTE_SIG, lambda how, err, exp: True))
     if acc is not None and lp is not None and touches_label_part(acc) and any(effective(st) for st in stages[lp + 1:]):
         # feats / label / tipe are forwarded unchanged through the later wrappers (recorded C13-F8/F9; the model forwards them too: no (A) suspension)
         out.append(("%s:label-not-last" % kind, lambda how, err, exp: True, lambda exp: False))
@@ -1369,7 +1423,7 @@ NAMES = ["a", "b", "c", "d", "e", "f", "g"]
 NUMS = ["0", "1", "2", "7", "-3", "10"]
 WORDS = ["x", "y", "zz", "0", "1"]
 LEVELS = [["p", "q"], ["p", "q", "r"], ["0", "1"], ["u", "v", "w", "x"]]
-ARFF_LEVELS = [["p", "q"], ["p", "q", "r"], ["1", "2"], ["u", "v", "w", "x"]]
+ARFF_LEVELS = [["p", "q"], ["p", "q", "r"], ["1", "2"], ["u", "v", "w", "x"], ["q", "p"], ["r", "p", "q"]]      # the same level set declared in another order is another attribute type
 ENCS = ["id", "int", "str", "inc", "dbl"]
 
 
@@ -1419,7 +1473,7 @@ class C13(Property):
             "EncodeCatRows(onehot|onehot_tuple|string|None); 3-10 accesses (position incl. len and len+1, name, iter, len, keys, items, copy, "
             "headers, == same/reflected/lazy/perturbed, label, tipe, feats.<access>) on one row, the same accesses permuted and then repeated "
             "on a fresh copy; in 45 % of the cases the SAME filter objects then process one or two further tables (the first table with columns permuted / "
-            "one removed / one added, headers and base encoders moving with their column, or converted dense<->sparse), each judged against its own eager model and sent through the model's `session` in one request (theorem filter_stateless); 4 % of the multi-row dense tables are jagged and 30 % of the multi-row plain sparse tables under EncodeCatRows have a later dict with other keys / categoricals than the first (flag nonuniform: only the first-row model tableD1 / tableS1 is compared); 6 % of the cases are 2-3 dense tables that differ only in the header map (own HeadRows(list|mapping in dict/MappingProxyType/ChainMap/custom Mapping flavours), shared LabelRows, by-name access on feats), 5 % have cells that are lists/dicts holding categoricals under EncodeCatRows ((B) only); 25 % of the cases with stages carry a fork: the stages before the last run once, then the last stage and a variant of it (same filter class, other drop columns / encoders / label / header names) are applied to the SAME row objects and the rows (and .feats for two labels) of the two forks are compared pairwise with == in both directions: lazy_a == lazy_b iff eager_a == eager_b; every case compares its source data deeply before/after; 22 % of the accesses are made on a copy of the row taken at that point of the history (copy.copy / copy.deepcopy / pickle round trip; pickle is skipped where the object holds a lambda or closure), the copy must be indistinguishable from the eager row and the original unchanged; the model receives the copy steps as Acc.clone (theorems access_after_clone, clone_leaves_original); non-trivial = at least one stage or a lazy base, and at least 3 accesses with an eager value; distinct by canonical JSON")
+            "one removed / one added, headers and base encoders moving with their column, or converted dense<->sparse), each judged against its own eager model and sent through the model's `session` in one request (theorem filter_stateless); 4 % of the multi-row dense tables are jagged and 30 % of the multi-row plain sparse tables under EncodeCatRows have a later dict with other keys / categoricals than the first (flag nonuniform: only the first-row model tableD1 / tableS1 is compared); 6 % of the cases are 2-3 dense tables that differ only in the header map (own HeadRows(list|mapping in dict/MappingProxyType/ChainMap/custom Mapping flavours), shared LabelRows, by-name access on feats), 5 % have cells that are lists/dicts holding categoricals under EncodeCatRows ((B) only); 25 % of the cases with stages carry a fork: the stages before the last run once, then the last stage and a variant of it (same filter class, other drop columns / encoders / label / header names) are applied to the SAME row objects and the rows (and .feats for two labels) of the two forks are compared pairwise with == in both directions: lazy_a == lazy_b iff eager_a == eager_b; every case compares its source data deeply before/after; 22 % of the accesses are made on a copy of the row taken at that point of the history (copy.copy / copy.deepcopy / pickle round trip; pickle is skipped where the object holds a lambda or closure), the copy must be indistinguishable from the eager row and the original unchanged; the model receives the copy steps as Acc.clone (theorems access_after_clone, clone_leaves_original); 6 % of the cases are dense ARFF tables with quoted cells (rows with double-quoted / single-quoted / both / no quoted cells) and 30 % of the ordinary multi-row cases read the sibling rows of the observed row first (ascending / descending, another order on the second copy): rows of one read share the line reader / filter closures; non-trivial = at least one stage or a lazy base, and at least 3 accesses with an eager value; distinct by canonical JSON")
     trusted_base = [
         "cells are small ints, decimal-integer strings, short words, '?', '', None and Categoricals; float() of ARFF numerics is modelled on "
         "integer literals only (an integer-valued float: equal to the int, str() gives 'N.0'; compared as an exact rational)",
@@ -1433,8 +1487,10 @@ class C13(Property):
         "(A) is compared there, (B) failures are matched to the two known entries",
         "sparse rows: the order in which EncodeSparse/LazySparse list their default ('not sparse') entries is a Python set order; the model fixes one order and the "
         "harness compares items()/copy() as finite maps",
-        "ARFF text parsing itself (tokenising, dialect detection) belongs to C12; here ArffReader only sees simple comma/space separated tokens",
-        "exceptions are compared by presence (raised / not raised), not by class",
+        "ARFF text parsing itself (tokenising, dialect detection) belongs to C12; here ArffReader sees comma separated tokens, bare or quoted (round g)",
+        "exception classes: (B) demands IndexError for a position at/after the end (as a list); (A) compares the class the code raises with the model's errD / errS "
+        "on every access where both raise (theorems lazy_error_eq_eager_error(_sparse)); where the eager row has no value the class is compared with the model only",
+        "dense ARFF cells may be quoted (values holding blanks, commas, one quote kind); the text is a function of the cell (arff_token); other ARFF syntax stays with C12",
     ]
     assumptions = [
         "header names are distinct (ArffReader rejects duplicates; a duplicate name has no eager by-name meaning)",
@@ -1452,6 +1508,71 @@ class C13(Property):
                                         "its own feats/label with new index arithmetic in every wrapper class",
         "Coba.C13.feats_label_sparse_partial": "same forced hypothesis for sparse rows (feats_label_sparse_counterexample, recorded C13-F9)",
     }
+
+    # -------------------------------------------------------------- translator step
+    ROW_VIEW_BASES = ("Dense", "Dense_", "Sparse", "Sparse_")
+    NOT_A_PIPELINE_VIEW = ("SparseDense",)      # coba/pipes/rows.py: a mutable dense view of a dict built by Densify, never by the row filters
+
+    def pre_build(self):
+        """regenerate lean/CobaVerif/Generated/C13Methods.lean from the CURRENT coba source: for every row-view class (the base classes
+        Dense / Dense_ / Sparse / Sparse_ of coba/primitives.py and every class of coba/pipes/rows.py deriving from them) the public
+        protocol it implements = the names of its methods / properties that are dunder or do not start with an underscore.
+        Props/C13.lean proves (decide) that the union equals `coveredMethods`, the protocol the model's access language covers."""
+        import ast
+        from core import lean
+        repo = os.environ.get("COBA_REPO", "/repo")
+        notes = []
+        try:
+            classes = []
+            for rel, pick in (("coba/primitives.py", lambda c, bases: c.name in self.ROW_VIEW_BASES),
+                              ("coba/pipes/rows.py", lambda c, bases: any(b in self.ROW_VIEW_BASES for b in bases) and c.name not in self.NOT_A_PIPELINE_VIEW)):
+                tree = ast.parse(open(os.path.join(repo, rel), encoding="utf-8").read())
+                for node in tree.body:
+                    if isinstance(node, ast.ClassDef):
+                        bases = [b.id if isinstance(b, ast.Name) else getattr(b, "attr", "") for b in node.bases]
+                        if pick(node, bases):
+                            ms = []
+                            for fn in node.body:
+                                names = []
+                                if isinstance(fn, (ast.FunctionDef, ast.AsyncFunctionDef)):
+                                    names = [fn.name]
+                                elif isinstance(fn, ast.Assign):     # `__hash__ = None`, `keys = …` style definitions
+                                    names = [t.id for t in fn.targets if isinstance(t, ast.Name)]
+                                for n in names:
+                                    if n == "__slots__":
+                                        continue            # a storage declaration, not part of the protocol
+                                    if (n.startswith("__") and n.endswith("__")) or not n.startswith("_"):
+                                        if n not in ms:
+                                            ms.append(n)
+                            classes.append((node.name, sorted(ms)))
+            if not classes:
+                raise LookupError("no row-view class found")
+            for n, ms in classes:
+                for m in ms:
+                    if not all(ch.isascii() and (ch.isalnum() or ch == "_") for ch in m + n):
+                        raise ValueError("unexpected name %r" % m)
+            union = sorted(set(m for _, ms in classes for m in ms))
+            lst = lambda xs: "[%s]" % ", ".join('"%s"' % x for x in xs)
+            body = ("-- GENERATED by harness/props/c13.py (pre_build) from coba/primitives.py and coba/pipes/rows.py on every run; do not edit.\n"
+                    "namespace Coba.C13.Generated\n"
+                    "/-- per row-view class: the public methods / properties it defines -/\n"
+                    "def rowViewClasses : List (String × List String) :=\n  [%s]\n"
+                    "/-- their union, sorted -/\ndef rowViewMethods : List String :=\n  %s\n"
+                    "def extracted : Bool := true\nend Coba.C13.Generated\n"
+                    % (",\n   ".join('("%s", %s)' % (n, lst(ms)) for n, ms in classes), lst(union)))
+            notes.append("row-view protocol extracted from %d classes: %s" % (len(classes), " ".join(union)))
+        except Exception as e:
+            body = ("-- GENERATED: the row-view classes could not be read (%s)\nnamespace Coba.C13.Generated\n"
+                    "def rowViewClasses : List (String × List String) := []\ndef rowViewMethods : List String := []\n"
+                    "def extracted : Bool := false\nend Coba.C13.Generated\n" % str(e).replace("\n", " ")[:150])
+            notes.append("row-view protocol could NOT be extracted (%s): the obligation methods_covered fails" % e)
+        path = os.path.join(lean.LEAN_DIR, "CobaVerif", "Generated", "C13Methods.lean")
+        old = open(path, encoding="utf-8").read() if os.path.exists(path) else None
+        if old != body:
+            os.makedirs(os.path.dirname(path), exist_ok=True)
+            with open(path, "w", encoding="utf-8") as f:
+                f.write(body)
+        return notes
 
     # -------------------------------------------------------------- generation
     def gen_table(self, rng, kind, tier):
@@ -1717,10 +1838,10 @@ class C13(Property):
             return {"a": "feats", "sub": self.gen_access(rng, kind, nmax, names_pool, False, False)}
         return {"a": a}
 
-    def make_case(self, rng, tier, search=False):
-        kind = rng.wchoice([(6, "dense"), (5, "sparse")])
+    def make_case(self, rng, tier, search=False, table=None):
+        kind = rng.wchoice([(6, "dense"), (5, "sparse")]) if table is None else table[0]
         wf = not rng.chance(0.06)
-        base, rows, names, ctypes, _ = self.gen_table(rng, kind, tier)
+        base, rows, names, ctypes, _ = self.gen_table(rng, kind, tier) if table is None else table[1]
         ncols = len(ctypes)
         lazy_has_missing = base["wrap"] in ("lazy", "arff")
         raw_keys = list(range(ncols)) if (kind == "sparse" and (base["wrap"] == "arff" or base.get("hdr") is not None)) else None
@@ -2020,13 +2141,73 @@ class C13(Property):
                 case["fork"] = {"stage": alt}
         return case
 
+    def gen_arffquote_case(self, rng, tier):
+        """round g (seeded change gm1): dense ARFF rows with quoted cells.  The lazy rows of one read share ONE ArffLineReader whose csv dialect
+        (quote character, delimiter, simple / flexible parser) is settled by whichever row is loaded first; every row must answer with the eager
+        parse whatever the order in which the rows of the table are loaded.  Rows with double-quoted cells only, single-quoted only, both kinds,
+        and none; the observed row is read after its siblings (ascending or descending) on one copy and before / in the other order on the second copy."""
+        ncols = rng.wchoice([(3, 2), (4, 3), (2, 4)])
+        nrows = rng.wchoice([(4, 2), (4, 3), (2, 4)])
+        names = rng.sample(NAMES, ncols)
+        cols = []
+        for k, n in enumerate(names):
+            t = "str" if k < 2 else rng.wchoice([(5, "str"), (2, "num"), (2, "cat")])
+            c = {"name": n, "t": t}
+            if t == "cat":
+                c["lv"] = list(rng.choice(ARFF_LEVELS))
+            cols.append(c)
+        cols = rng.shuffle(cols)
+        names = [c["name"] for c in cols]
+        pools = {"bare": ["x", "zz", "w1"], "blank": ["x y", "p q r", "u,v", "m, n"], "dq": ['c"d', 'say "hi"', 'a",b'], "sq": ["e'f", "it's", "o',k"]}
+        rows = []
+        for i in range(nrows):
+            # the quote kinds of a row: none / default-quote only / the other kind only / both kinds
+            style = rng.wchoice([(1, "bare"), (4, "one"), (2, "other"), (4, "both")])
+            strs = [j for j, c in enumerate(cols) if c["t"] == "str"]
+            cells = []
+            for j, c in enumerate(cols):
+                if c["t"] == "num":
+                    cells.append(rng.choice(NUMS))
+                elif c["t"] == "cat":
+                    cells.append(rng.choice(c["lv"]))
+                else:
+                    cells.append(rng.choice(pools["bare"]))
+            rows.append((style, strs, cells))
+        qs = rng.choice(["d", "s"])
+        same_alt = "sq" if qs == "d" else "dq"                                   # a value holding the OTHER quote char is written in the default quote
+        out = []
+        for style, strs, cells in rows:
+            if style in ("one", "both"):
+                cells[strs[0]] = rng.choice(pools["blank"] + pools[same_alt]) if rng.chance(0.7) else rng.choice(pools["blank"])
+            if style == "other":
+                cells[strs[0]] = rng.choice(pools["dq" if qs == "d" else "sq"])
+            if style == "both":
+                if len(strs) > 1:
+                    cells[strs[1]] = rng.choice(pools["dq" if qs == "d" else "sq"])
+                else:
+                    cells[strs[0]] = rng.choice(pools["dq" if qs == "d" else "sq"])
+            out.append(cells)
+        base = {"wrap": "arff", "cols": cols, "qs": qs}
+        ctypes = [{"num": "flt", "str": "word", "cat": "cat"}[c["t"]] + (":%d" % len(c["lv"]) if c["t"] == "cat" else "") for c in cols]
+        table = ("dense", (base, out, names, ctypes, {i: n for i, n in enumerate(names)}))
+        case = self.make_case(rng, tier, table=table)
+        case["ri"] = rng.below(nrows)
+        case["touch"] = rng.choice([{"first": "fwd", "second": None}, {"first": "fwd", "second": "rev"}, {"first": "rev", "second": "fwd"},
+                                    {"first": "rev", "second": None}, {"first": None, "second": "fwd"}])
+        return case
+
     def generate0(self, rng, tier):
         r = rng.below(100)
         if r < 6:
             return self.gen_remap_case(rng)
         if r < 11:
             return self.gen_nested_case(rng)
+        if r < 17:
+            return self.gen_arffquote_case(rng, tier)
         case = self.make_case(rng, tier)
+        if len(case["rows"]) > 1 and rng.chance(0.3):
+            # siblings first: the other rows of the table are read completely before the observed one (other order on the second copy)
+            case["touch"] = rng.choice([{"first": "fwd", "second": None}, {"first": "rev", "second": "fwd"}, {"first": None, "second": "rev"}])
         if (case["kind"] == "dense" and case["base"]["wrap"] in ("plain", "tuple", "lazy") and len(case["rows"]) > 1
                 and len(case["rows"][0]) > 1 and rng.chance(0.04)):
             # a jagged table: a later row is shorter than the first one. Only the first-row model (tableD1) is compared.
@@ -2226,6 +2407,25 @@ class C13(Property):
         # witnesses of feats_label_counterexample / feats_label_sparse_counterexample (recorded C13-F8 / C13-F9)
         cs.append(mk("dense", plain, [[1, 2, 3]], [{"op": "label", "k": 1, "t": "c"}, {"op": "encode", "seq": ["inc", "inc", "inc"]}], [{"a": "iter"}, {"a": "label"}]))
         cs.append(mk("sparse", plain, [[[0, 1], [1, 2]]], [{"op": "label", "k": 1, "t": "c"}, {"op": "encode", "map": [[0, "inc"], [1, "inc"]]}], [{"a": "items"}, {"a": "label"}]))
+        # round g (seeded change gm1): quoted ARFF cells, rows loaded in both orders -- the shared ArffLineReader settles its csv dialect on the row loaded first
+        ss = [{"name": "a", "t": "str"}, {"name": "b", "t": "str"}]
+        q_acc = [{"a": "pos", "i": 0}, {"a": "name", "k": "b"}, {"a": "iter"}, {"a": "eq", "o": "same"}, {"a": "len"}]
+        for qs, r0, r1 in (("d", ["x y", "1"], ['c"d', "e'f"]), ("s", ["x y", "1"], ["e'f", 'c"d']), ("d", ["u,v", "zz"], ['a",b', "o',k"]),
+                           ("d", ["e'f", "w1"], ['c"d', "x y"]), ("s", ['c"d', "w1"], ["e'f", "p q r"])):
+            for ri, touch in ((1, {"first": "fwd", "second": None}), (1, {"first": None, "second": "fwd"}), (0, {"first": "rev", "second": None})):
+                c = mk("dense", {"wrap": "arff", "cols": ss, "qs": qs}, [r0, r1], [], q_acc, ri)
+                c["touch"] = touch
+                cs.append(c)
+        c = mk("dense", {"wrap": "arff", "cols": ss + [{"name": "c", "t": "num"}], "qs": "d"}, [["x y", "zz", "1"], ["w1", "x", "2"], ['c"d', "e'f", "3"]],
+               [{"op": "drop", "cols": ["c"], "pred": None}, {"op": "label", "k": "b", "t": "c"}], q_acc + [{"a": "label"}, {"a": "feats", "sub": {"a": "iter"}}], 2)
+        c["touch"] = {"first": "fwd", "second": "rev"}
+        cs.append(c)
+        # two nominal attributes with the same level set declared in different orders (seeded change fm1: a cache keyed by the level SET)
+        two = [{"name": "a", "t": "cat", "lv": ["p", "q"]}, {"name": "b", "t": "cat", "lv": ["q", "p"]}, {"name": "c", "t": "cat", "lv": ["r", "p", "q"]}]
+        cs.append(mk("dense", {"wrap": "arff", "cols": two}, [["p", "p", "p"], ["q", "q", "r"]], [], full_d, 1))
+        cs.append(mk("dense", {"wrap": "arff", "cols": two}, [["p", "p", "p"], ["q", "q", "r"]], [{"op": "enccat", "t": "onehot"}], full_d + [{"a": "pos", "i": 5}, {"a": "pos", "i": 6}]))
+        cs.append(mk("dense", {"wrap": "arff", "cols": two}, [["p", "p", "p"], ["q", "q", "r"]], [{"op": "label", "k": "b", "t": "c"}], full_d + lab_d))
+        cs.append(mk("sparse", {"wrap": "arff", "cols": two}, [[[0, "p"], [1, "p"]], [[1, "q"], [2, "r"]]], [], full_s, 1))
         # label not last (forced hypothesis of feats_label)
         cs.append(mk("dense", plain, [["1", "2", "3"]], [head, {"op": "label", "k": "b", "t": "c"}, {"op": "encode", "seq": ["int", "int", "int"]}], full_d + lab_d))
         cs.append(mk("sparse", plain, [[["a", "1"], ["b", "2"]]], [{"op": "label", "k": "b", "t": "c"}, {"op": "encode", "map": [["a", "int"], ["b", "int"]]}], full_s + lab_s))
@@ -2294,7 +2494,7 @@ class C13(Property):
                         fails.append(F("B", "two pipelines forked from one table (last stage %s | %s over the same row objects): %s #%d: lazy_a == lazy_b gives %s, "
                                             "lazy_b == lazy_a gives %s, the eager rows compare %s" % (
                                                 json.dumps(case["stages"][-1]), json.dumps(case["fork"]["stage"]), c["what"], c["i"], c["ab"], c["ba"], c["exp"]),
-                                       "%s:eq-across-forks:%s:%s" % (case["kind"], top, c["what"])))
+                                       ARFF_QUOTE_SIG if arff_quote_area(case) else "%s:eq-across-forks:%s:%s" % (case["kind"], top, c["what"])))
                         break
             else:
                 tags.append("fork-skipped:" + (fk.get("skip") or "pipe-err"))
@@ -2326,6 +2526,13 @@ class C13(Property):
         tags.append("kind:" + kind)
         tags.append("base:" + case["base"]["wrap"] + ("+loader" if case["base"].get("loader") else "") + ("+enc" if case["base"].get("enc") else "") + ("+hdr" if case["base"].get("hdr") is not None else ""))
         tags.append("stages:%d" % len(case["stages"]))
+        if case.get("touch"):
+            tags.append("siblings-read-first:%s/%s" % (case["touch"].get("first") or "none", case["touch"].get("second") or "none"))
+        if case["base"]["wrap"] == "arff" and kind == "dense":
+            toks = [arff_token(c, case["base"].get("qs")) for r in case["rows"] for c in r]
+            qk = set(t[0] for t in toks if isinstance(t, str) and t[:1] in ("'", '"'))
+            if qk:
+                tags.append("arff-quoted:" + ("both" if len(qk) == 2 else ("double" if '"' in qk else "single")))
         for st in case["stages"]:
             tags.append("op:" + st["op"] + (":pred" if st.get("pred") else ""))
         tags.append("last:" + last_wrapper(case))
@@ -2354,6 +2561,8 @@ class C13(Property):
                 fails.append(BF("T", "the lazy pipeline yields %d rows, the eager table has %d (row predicates %s)" % (real["n"], len(et), json.dumps([st.get("pred") for st in case["stages"] if st["op"] == "drop"])), tfail))
             elif not real.get("no_row"):
                 e = et[case["ri"]]
+                tm = (case.get("touch") or {}).get("first")
+                touched = (" (the other rows of the table were read before, %s row order)" % ("ascending" if tm == "fwd" else "descending")) if tm in ("fwd", "rev") else ""
                 for j, acc in enumerate(case["acc"]):
                     got = real["first"][j]
                     exp = eager_access(e, acc)
@@ -2366,16 +2575,23 @@ class C13(Property):
                             n_valued += 1
                         else:
                             tags.append("must-raise:" + leaf(acc)["a"])
+                        if "e" in exp and "e" in got and leaf(acc)["a"] == "pos" and got["e"] != "IndexError":
+                            # exception CLASS: a plain list / tuple raises IndexError beyond its end (theorems lazy_error_eq_eager_error, index_error_class)
+                            bsig[j] = "%s:%s:wrong-exception-class:last=%s" % (kind, acc_name(acc), last_wrapper(case))
+                            fails.append(BF("a%d" % j, "row %d after %s%s: access %s raises %s, the eager list raises IndexError" % (
+                                case["ri"], json.dumps(case["stages"]), touched, json.dumps(orig_acc[j]), got["e"]), bsig[j]))
+                        elif "e" in exp and "e" in got and leaf(acc)["a"] == "pos":
+                            tags.append("class-checked:IndexError")
                         if ("e" in exp) != ("e" in got) or ("v" in exp and exp["v"] != got["v"]):
                             bsig[j] = classify(case, acc, exp, got)
-                            fails.append(BF("a%d" % j, "row %d after %s: access %s gives %s, the eager row gives %s" % (
-                                case["ri"], json.dumps(case["stages"]), json.dumps(orig_acc[j]), json.dumps(got)[:300], json.dumps(exp)[:300]),
+                            fails.append(BF("a%d" % j, "row %d after %s%s: access %s gives %s, the eager row gives %s" % (
+                                case["ri"], json.dumps(case["stages"]), touched, json.dumps(orig_acc[j]), json.dumps(got)[:300], json.dumps(exp)[:300]),
                                 bsig[j] + ((":on-" + leaf_how(orig_acc[j])) if has_clone(orig_acc[j]) and not known_sig(bsig[j]) else "")))
                     # access order: permuted run on a fresh copy, then every access once more on the used copy
                     for other, what in ((real["second"][j], "in a different order on a fresh copy"), (real["again"][j], "again after all other accesses")):
                         if other is not None and other != got and "u" not in other and "u" not in got:
                             fails.append(BF("o%d" % j, "access %s returned %s first and %s when performed %s" % (json.dumps(acc), json.dumps(got)[:200], json.dumps(other)[:200], what),
-                                           "%s:order-dependent:%s" % (kind, leaf(acc)["a"])))
+                                           ARFF_QUOTE_SIG if arff_quote_area(case) else "%s:order-dependent:%s" % (kind, leaf(acc)["a"])))
         if real.get("no_row"):
             tags.append("no-row")
         # (A) correspondence with the Lean model, (C) model vs spec
@@ -2432,6 +2648,15 @@ class C13(Property):
                             d = ("access %s: implementation %s, model %s (stages %s)" % (json.dumps(acc), json.dumps(x)[:200], json.dumps(y)[:200], json.dumps(case["stages"])[:300]),
                                  "%s:%s:last=%s" % (kind, acc_name(acc), last_wrapper(case)))
                             break
+                        errs = m.get("errs") or []
+                        if "e" in x and j < len(errs) and errs[j] and leaf(acc)["a"] in CLASS_COMPARED:
+                            # both raise: the exception CLASS of the implementation against the model's `errD` / `errS`
+                            rc = real["first"][j].get("e")
+                            tags.append("A-class:%s:%s" % (leaf(acc)["a"], errs[j]))
+                            if rc != errs[j]:
+                                d = ("access %s: implementation raises %s, model raises %s (stages %s)" % (json.dumps(acc), rc, errs[j], json.dumps(case["stages"])[:300]),
+                                     "%s:%s:exception-class:last=%s" % (kind, acc_name(acc), last_wrapper(case)))
+                                break
                 if d:
                     fails.append(F("A", "implementation and model differ: %s" % d[0], "A:" + d[1]))
             # (C) the theorems, at run time: model refines spec; a history of accesses = independent accesses
@@ -2466,6 +2691,10 @@ class C13(Property):
     def shrink(self, case):
         if case.get("fork"):
             yield {x: y for x, y in case.items() if x != "fork"}
+        if case.get("touch"):
+            yield {x: y for x, y in case.items() if x != "touch"}
+            if case["touch"].get("second"):
+                yield dict(case, touch=dict(case["touch"], second=None))
         others = case.get("others") or []
         for k in range(len(others)):
             rest = others[:k] + others[k + 1:]
